@@ -271,6 +271,17 @@ pub fn random_req(rng: &mut Rng, body_max: usize) -> (ReqCfg, Vec<u8>) {
     if rng.chance(1, 3) {
         cfg.added.push(("cookie".into(), b"k=v".to_vec()));
     }
+    if rng.chance(1, 4) {
+        // headers a redirect will not carry over, possibly as several fields of the same name
+        for i in 0..rng.usize_in(1, 3) {
+            cfg.orig.push(("cookie".into(), format!("c{}=v", i).into_bytes()));
+        }
+        if rng.chance(1, 2) {
+            for i in 0..rng.usize_in(1, 2) {
+                cfg.orig.push(("authorization".into(), format!("Basic cred{}", i).into_bytes()));
+            }
+        }
+    }
     let mut body = vec![];
     if rng.chance(1, 6) {
         // an explicit Host header (then the library must not add its own)
@@ -401,6 +412,34 @@ pub fn gen_resp_head(rng: &mut Rng, nfields: usize, force_3xx_location: bool) ->
             lead: *rng.pick(&[" ", " ", " ", "", "  ", "\t", " \t "]),
             trail: *rng.pick(&["", "", "", " ", "\t", "  \t"]),
         });
+    }
+    if nfields >= 2 && rng.chance(1, 3) {
+        // fields the client itself interprets, in shapes a parser must hand on untouched: the same
+        // Content-Length on several lines, a coding list spread over two lines, both Connection
+        // options, both framing fields
+        let a = rng.usize_in(0, nfields - 1);
+        let mut b = rng.usize_in(0, nfields - 1);
+        if b == a {
+            b = (a + 1) % nfields;
+        }
+        let (n1, v1, n2, v2): (&str, &[u8], &str, &[u8]) = match rng.below(6) {
+            0 => ("Content-Length", b"5", "content-length", b"5"),
+            1 => ("content-length", b"0", "Content-Length", b"0"),
+            2 => ("Transfer-Encoding", b"gzip", "Transfer-Encoding", b"chunked"),
+            3 => ("transfer-encoding", b"chunked", "Transfer-Encoding", b"chunked"),
+            4 => ("Connection", b"close", "connection", b"keep-alive"),
+            _ => ("Content-Length", b"12", "Transfer-Encoding", b"chunked"),
+        };
+        head.fields[a].name = n1.into();
+        head.fields[a].value = v1.to_vec();
+        head.fields[b].name = n2.into();
+        head.fields[b].value = v2.to_vec();
+        if nfields >= 3 && rng.chance(1, 3) {
+            // and a third copy of the first one
+            let c = (0..nfields).find(|i| *i != a && *i != b).unwrap();
+            head.fields[c].name = n1.to_ascii_uppercase();
+            head.fields[c].value = v1.to_vec();
+        }
     }
     if force_3xx_location && nfields >= 1 {
         // a Location somewhere, with more fields after it when there is room
